@@ -11,6 +11,7 @@ import (
 	"os"
 	"reflect"
 	"strings"
+	"syscall"
 	"time"
 
 	. "adharness/common"
@@ -175,7 +176,8 @@ type World struct {
 }
 
 // per-operation watchdog: a library call that loops for ever (e.g. an AVL iterator caught in a
-// parent-pointer cycle inside Sort / Append / skip()) must not hang the harness
+// parent-pointer cycle inside Sort / Append / skip()) must not hang the harness.  CPU time of the
+// process (see execOne), so that a loaded machine cannot produce a false K_HANG
 var opDeadline = 3 * time.Second
 var hungTotal = 0
 
@@ -203,14 +205,36 @@ func (w *World) execOne(o Op) (int64, []int64) {
 		k, p := w.execRaw(o)
 		ch <- res{k, p}
 	}()
-	select {
-	case r := <-ch:
-		return r.k, r.p
-	case <-time.After(opDeadline):
-		w.Hung = true
-		hungTotal++
-		return K_HANG, []int64{}
+	// A hang is decided on CPU time, not on wall-clock time: a library call that loops for ever burns
+	// CPU whenever it is scheduled, a harness starved by a loaded machine does not.  The operation is
+	// declared hung once the PROCESS has consumed opDeadline of CPU time since it started (operations
+	// of these histories take microseconds); the wall-clock ceiling is only a last resort.
+	cpu0 := processCPU()
+	t0 := time.Now()
+	tick := time.NewTicker(100 * time.Millisecond)
+	defer tick.Stop()
+	for {
+		select {
+		case r := <-ch:
+			return r.k, r.p
+		case <-tick.C:
+			if processCPU()-cpu0 >= opDeadline || time.Since(t0) >= opWallCeiling {
+				w.Hung = true
+				hungTotal++
+				return K_HANG, []int64{}
+			}
+		}
 	}
+}
+
+const opWallCeiling = 15 * time.Minute
+
+func processCPU() time.Duration {
+	var ru syscall.Rusage
+	if err := syscall.Getrusage(syscall.RUSAGE_SELF, &ru); err != nil {
+		return 0
+	}
+	return time.Duration(ru.Utime.Nano() + ru.Stime.Nano())
 }
 
 func (w *World) execRaw(o Op) (kind int64, payload []int64) {
